@@ -29,6 +29,8 @@ def dense_stamp(tmpl, oy, ox, H, W):
 def stack_failure(tmpl, H, W, placements):
     """placements: list of (layer, oy, ox) with distinct layers"""
     idx = [p[0] for p in placements]
+    if tmpl.ndim == 2 and min(tmpl.shape) > 1 and (len(placements) + tmpl.shape[0]) % 3 == 0:
+        tmpl = np.asfortranarray(tmpl) if len(placements) % 2 else np.ascontiguousarray(tmpl.T).T      # same values, not C-contiguous
     try:
         st = masks.sparse_template_multi_stack(mask_index=idx, offsetX=np.array([p[2] for p in placements]), offsetY=np.array([p[1] for p in placements]),
                                                template=tmpl, imageSizeX=W, imageSizeY=H)
@@ -205,6 +207,9 @@ def run(ctx):
         if k % 2:
             desc['search'] = 2 * radius
         peaks = [(int(rng.integers(-1, H + 1)), int(rng.integers(-1, W + 1))) for _ in range(3)]
+        if k % 3 == 0:
+            # peaks entirely outside the frame, also as the LAST entries of the list: their (empty) layers still exist
+            peaks += [(H + 20, int(rng.integers(0, W + 1))), (-30, -30)][:int(rng.integers(1, 3))]
         fail = fv_failure(desc, H, W, peaks)
         n += 3
         if fail:
